@@ -43,7 +43,7 @@ func c16Parent(r *ev.Run) {
 	r.Level = "fault_enumeration"
 	r.Rule = "session shapes (1-3 monitors with any method on disjoint tables, client transactions, transactions by a direct writer before / during / after the outage) x EVERY message boundary of the fault-free session in both directions (cut after message k, cut inside message k) + repeated cuts, refused connection attempts and black holes detected by the inactivity probe; a case is one faulted session; distinct = (session shape, direction, boundary index, fault kind)"
 	r.Assume("liveness is bounded progress: after the last fault the client must be connected again before 30 s pass without it opening a new connection (back-off 10 ms)")
-	r.Assume("monitor_cond_since is answered with found=false by the built-in server; the found=true branch is not reachable with it")
+	r.Assume("the built-in server answers monitor_cond_since with found=false and never sends update3; the found=true branch is exercised against a history-keeping OVSDB server written for the harness (sessions.history-server), whose state is a reference-model database")
 	r.RunBatches(ev.BatchOpts{N: r.N(8, 32), Race: true, Timeout: 40 * time.Minute})
 }
 
@@ -368,6 +368,7 @@ func c16Child(r *ev.Run, batch int) {
 	}
 	nb := r.N(8, 32)
 	c16LeaderPart(r, m, batch, nb)
+	c16HistPart(r, m, batch, nb)
 	shapes := r.N(4, 24)
 	methods := []string{ovsdb.MonitorRPC, ovsdb.ConditionalMonitorRPC, ovsdb.ConditionalMonitorSinceRPC}
 	idx := 0
